@@ -53,7 +53,7 @@ pub fn check(tier: Tier) -> Check {
         also_rel: false,
         property: "C15",
         level: "model_checking",
-        rule: "histories of operations (publish QoS 0/1/2, subscribe, unsubscribe, ping, with Receive Maximum 1 or 2 so that a leaked slot shows) in which any pending operation future is dropped at any point - before its first poll, awaiting its acknowledgement, between the QoS 2 phases - and streams / subscribe responses are dropped (also with three established subscriptions and messages matching several of them), followed by the late acknowledgements and further operations; run() must stay pending, survivors get exactly their own results, one more QoS>0 publish is accepted after the late acknowledgement; non-trivial = a late acknowledgement of a cancelled operation was delivered".into(),
+        rule: "histories of operations (publish QoS 0/1/2, subscribe, unsubscribe, ping, with Receive Maximum 1 or 2 so that a leaked slot shows) in which any pending operation future is dropped at any point - before its first poll, awaiting its acknowledgement, between the QoS 2 phases - and streams / subscribe responses are dropped (also with three established subscriptions and messages matching several of them), followed by the late acknowledgements and further operations; run() must stay pending, survivors get exactly their own results, one more QoS>0 publish is accepted after the late acknowledgement; (C15/abandoned-queued) a publish abandoned while its request is still queued, its late acknowledgement, then R + 1 probes; (C15/rolling) a rolling population of subscriptions with dropped streams and subscribes abandoned before their SUBACK; QoS 2 re-deliveries in C15/streams; value flavour; non-trivial = a late acknowledgement of a cancelled operation was delivered".into(),
         assumptions: vec!["conformant broker".into()],
         parts,
     }
